@@ -49,7 +49,12 @@ func verifSetFreezeRealTimers(b bool) { verifFreezeRealTimers = b }
 
 do("proc.go", [
     ("const forcePreemptNS = 10 * 1000 * 1000 // 10ms", "const forcePreemptNS = 3600 * 1000 * 1000 * 1000 // verif: 1h"),
-])
+], append="""
+// verif: identity of the calling goroutine, for the simulator's cooperative yield points.
+//
+//go:linkname verifGoid
+func verifGoid() uint64 { return getg().goid }
+""")
 
 do("rand.go", [
     # fixed process seed: hashkey / aeskeysched / per-M chacha state identical in every process
